@@ -55,6 +55,10 @@ structure Serde (P I : Type) where
   ser : Rec I → Rec P
   /-- content of an emptied repeated field (`del model_proto.functions[:]`) -/
   empty : P
+  /-- **Aliasing.**  `de` does not copy tensors: `TensorProtoTensor` wraps the caller's `TensorProto`, and
+  its `name` setter writes through.  `writeBack M m'` is the content of the source proto `M` once the IR
+  model deserialised from it has been transformed into `m'`.  A serde that copies has `writeBack M _ = M`. -/
+  writeBack : Rec P → Rec I → Rec P
 
 /-- The normaliser `N = ser ∘ de`. -/
 def Serde.N {P I : Type} (s : Serde P I) (M : Rec P) : Rec P := s.ser (s.de M)
@@ -66,6 +70,57 @@ inductive Api
   | rewrite (emptyRules : Bool)
   | convertVersion | replaceFunctions
   deriving DecidableEq, Repr
+
+/-- The two entry forms. -/
+inductive Entry | proto | ir
+  deriving DecidableEq, Repr
+
+/-- Keyword options the wrappers forward to the IR-level implementation. -/
+inductive OptKey
+  | numIterations | onnxShapeInference | stopIfNoChange | inputSizeLimit | outputSizeLimit | inline  -- optimize
+  | foldKwargs            -- fold_constants: `*args, **kwargs` passed through as a whole
+  | rules                 -- rewrite: pattern_rewrite_rules
+  | targetVersion | fallback   -- convert_version
+  | functions             -- replace_functions
+  deriving DecidableEq, Repr
+
+def OptKey.all : List OptKey :=
+  [.numIterations, .onnxShapeInference, .stopIfNoChange, .inputSizeLimit, .outputSizeLimit, .inline,
+   .foldKwargs, .rules, .targetVersion, .fallback, .functions]
+
+def OptKey.name : OptKey → String
+  | .numIterations => "num_iterations" | .onnxShapeInference => "onnx_shape_inference"
+  | .stopIfNoChange => "stop_if_no_change" | .inputSizeLimit => "input_size_limit"
+  | .outputSizeLimit => "output_size_limit" | .inline => "inline" | .foldKwargs => "kwargs"
+  | .rules => "rules" | .targetVersion => "target_version" | .fallback => "fallback"
+  | .functions => "functions"
+
+/-- An option tuple (`W` = the representation of one option's value). -/
+abbrev Opts (W : Type) := OptKey → W
+
+/-- **Option routing**, transcribed from the keyword lists of the wrappers: `route f e k` is the *caller's*
+option whose value the entry `e` of API `f` passes as parameter `k` of the IR-level implementation.
+`optimize` has two separate keyword lists (IR entry lines 60-68, proto entry lines 73-81);
+`fold_constants` passes `*args, **kwargs` through on both; `convert_version` builds one
+`ConvertVersionPass(target_version=target_version, fallback=fallback)` for both; `rewrite` builds one
+pass list from `pattern_rewrite_rules` for both. -/
+def route : Api → Entry → OptKey → OptKey
+  | .optimize, .ir, .numIterations => .numIterations
+  | .optimize, .ir, .onnxShapeInference => .onnxShapeInference
+  | .optimize, .ir, .stopIfNoChange => .stopIfNoChange
+  | .optimize, .ir, .inputSizeLimit => .inputSizeLimit
+  | .optimize, .ir, .outputSizeLimit => .outputSizeLimit
+  | .optimize, .ir, .inline => .inline
+  | .optimize, .proto, .numIterations => .numIterations
+  | .optimize, .proto, .onnxShapeInference => .onnxShapeInference
+  | .optimize, .proto, .stopIfNoChange => .stopIfNoChange
+  | .optimize, .proto, .inputSizeLimit => .inputSizeLimit
+  | .optimize, .proto, .outputSizeLimit => .outputSizeLimit
+  | .optimize, .proto, .inline => .inline
+  | _, _, k => k
+
+/-- The option tuple the IR-level implementation receives. -/
+def forward {W : Type} (f : Api) (e : Entry) (o : Opts W) : Opts W := fun k => o (route f e k)
 
 /-- What the call hands back. -/
 inductive Ret (X : Type)
@@ -88,17 +143,20 @@ def Outcome.result {X : Type} (o : Outcome X) : X :=
 def Outcome.argMutated {X : Type} [DecidableEq X] (o : Outcome X) (before : X) : Bool :=
   o.argAfter != before
 
-/-- IR entry.  `T f` is the in-place transformation the passes perform (a parameter).  Every IR entry
-mutates the `ir.Model` it is given; `optimize` and `rewrite` also return that same object. -/
-def irPath {I : Type} (T : Api → Rec I → Rec I) : Api → Rec I → Outcome (Rec I)
-  | .optimize, m => ⟨T .optimize m, .argItself⟩                      -- optimize_ir(model); return model
-  | .foldConstants, m => ⟨T .foldConstants m, .aux⟩                  -- return constant_folding.fold_constants(model)
-  | .removeUnusedNodes, m => ⟨T .removeUnusedNodes m, .none⟩
-  | .removeUnusedFunctions, m => ⟨T .removeUnusedFunctions m, .none⟩
-  | .rewrite true, m => ⟨m, .argItself⟩                              -- elif not rules: return model
-  | .rewrite false, m => ⟨T (.rewrite false) m, .argItself⟩          -- in-place passes; `.model` is the argument
-  | .convertVersion, m => ⟨T .convertVersion m, .none⟩
-  | .replaceFunctions, m => ⟨T .replaceFunctions m, .none⟩           -- replace_functions_inplace
+/-- IR entry.  `T f o` is the in-place transformation the passes perform under option tuple `o` (a
+parameter).  Every IR entry mutates the `ir.Model` it is given; `optimize` and `rewrite` also return that
+same object. -/
+def irPath {I W : Type} (T : Api → Opts W → Rec I → Rec I) (f : Api) (o : Opts W) (m : Rec I) : Outcome (Rec I) :=
+  let t := T f (forward f .ir o)
+  match f with
+  | .optimize => ⟨t m, .argItself⟩                      -- optimize_ir(model, …); return model
+  | .foldConstants => ⟨t m, .aux⟩                       -- return constant_folding.fold_constants(model, *args, **kwargs)
+  | .removeUnusedNodes => ⟨t m, .none⟩
+  | .removeUnusedFunctions => ⟨t m, .none⟩
+  | .rewrite true => ⟨m, .argItself⟩                    -- elif not rules: return model
+  | .rewrite false => ⟨t m, .argItself⟩                 -- in-place passes; `.model` is the argument
+  | .convertVersion => ⟨t m, .none⟩
+  | .replaceFunctions => ⟨t m, .none⟩                   -- replace_functions_inplace
 
 /-- `convert_version`'s proto branch after fix 4aa0d5c: `graph.Clear(); graph.CopyFrom(to_proto(model.graph))`,
 `del functions[:]`, `del opset_import[:]` + re-add from `model.opset_imports`; every other field of the
@@ -115,20 +173,25 @@ def spliceConvertedOld {P : Type} (empty : P) (M S : Rec P) : Rec P := fun c =>
   else if c = .functions then empty
   else M c
 
-/-- Proto entry. -/
-def protoPath {P I : Type} (s : Serde P I) (T : Api → Rec I → Rec I) : Api → Rec P → Outcome (Rec P)
-  | .optimize, M => ⟨M, .fresh (s.ser (T .optimize (s.de M)))⟩       -- new_proto = serialize_model(model_ir); return new_proto
-  | .foldConstants, M => ⟨s.ser (T .foldConstants (s.de M)), .aux⟩   -- Clear(); CopyFrom(new_proto); return result
-  | .removeUnusedNodes, M => ⟨s.ser (T .removeUnusedNodes (s.de M)), .none⟩
-  | .removeUnusedFunctions, M => ⟨s.ser (T .removeUnusedFunctions (s.de M)), .none⟩
-  | .rewrite true, M => ⟨M, .argItself⟩                              -- return model  (no serde at all)
-  | .rewrite false, M => ⟨M, .fresh (s.ser (T (.rewrite false) (s.de M)))⟩
-  | .convertVersion, M => ⟨spliceConverted s.empty M (s.ser (T .convertVersion (s.de M))), .none⟩
-  | .replaceFunctions, M => ⟨M, .fresh (s.ser (T .replaceFunctions (s.de M)))⟩
+/-- Proto entry.  The variants that return a fresh proto leave the caller's object to whatever the
+serde's aliasing does to it (`writeBack`); the in-place variants overwrite it. -/
+def protoPath {P I W : Type} (s : Serde P I) (T : Api → Opts W → Rec I → Rec I) (f : Api) (o : Opts W)
+    (M : Rec P) : Outcome (Rec P) :=
+  let m' := T f (forward f .proto o) (s.de M)
+  match f with
+  | .optimize => ⟨s.writeBack M m', .fresh (s.ser m')⟩        -- new_proto = serialize_model(model_ir); return new_proto
+  | .foldConstants => ⟨s.ser m', .aux⟩                         -- Clear(); CopyFrom(new_proto); return result
+  | .removeUnusedNodes => ⟨s.ser m', .none⟩
+  | .removeUnusedFunctions => ⟨s.ser m', .none⟩
+  | .rewrite true => ⟨M, .argItself⟩                           -- return model  (no serde at all)
+  | .rewrite false => ⟨s.writeBack M m', .fresh (s.ser m')⟩
+  | .convertVersion => ⟨spliceConverted s.empty M (s.ser m'), .none⟩
+  | .replaceFunctions => ⟨s.writeBack M m', .fresh (s.ser m')⟩
 
 /-- Proto entry of `convert_version` as it was before fix 4aa0d5c. -/
-def protoConvertOld {P I : Type} (s : Serde P I) (T : Api → Rec I → Rec I) (M : Rec P) : Outcome (Rec P) :=
-  ⟨spliceConvertedOld s.empty M (s.ser (T .convertVersion (s.de M))), .none⟩
+def protoConvertOld {P I W : Type} (s : Serde P I) (T : Api → Opts W → Rec I → Rec I) (o : Opts W) (M : Rec P) :
+    Outcome (Rec P) :=
+  ⟨spliceConvertedOld s.empty M (s.ser (T .convertVersion (forward .convertVersion .proto o) (s.de M))), .none⟩
 
 /-- `optimizer.inline(model: ir.Model)`: IR entry only; `if model.functions: InlinePass()(model)`. -/
 def inlinePath {I : Type} (hasFunctions : Rec I → Bool) (inl : Rec I → Rec I) (m : Rec I) : Outcome (Rec I) :=
@@ -165,11 +228,15 @@ def keptByConvert (c : Carrier) : Bool := !c.inGraph && c != .functions && c != 
 /-- Symbolic serde over strings: every operation wraps its operand, so the result of a path spells out
 the composition that produced each carrier. -/
 def symSerde : Serde String String :=
-  { de := fun M c => "de(" ++ M c ++ ")", ser := fun m c => "ser(" ++ m c ++ ")", empty := "empty" }
+  { de := fun M c => "de(" ++ M c ++ ")", ser := fun m c => "ser(" ++ m c ++ ")", empty := "empty",
+    writeBack := fun M _ c => M c ++ "~" }   -- `~` = the caller's content, possibly written through by aliasing
 
-def symT : Api → Rec String → Rec String := fun _ m c => "T(" ++ m c ++ ")"
+def symT : Api → Opts String → Rec String → Rec String := fun _ _ m c => "T(" ++ m c ++ ")"
 
 def symArg : Rec String := fun _ => "M"
+
+/-- Symbolic option tuple: every option holds its own name. -/
+def symOpts : Opts String := OptKey.name
 
 def showRet {X : Type} : Ret X → String
   | .argItself => "arg" | .fresh _ => "fresh" | .none => "none" | .aux => "aux"
